@@ -95,11 +95,20 @@ int snoopy_cli_action_disable ()
     // Skip the entry line we're removing, copy the rest
     destPosPtr = newEtcLdSoPreloadContent + copyLength;
     entryLine  = snoopy_util_string_copyLineFromContent(entryPtr);
-    srcPosPtr  = entryPtr + strlen(entryLine);
-    copyLength = (unsigned int) (strlen(curEtcLdSoPreloadContent) - (entryPtr - curEtcLdSoPreloadContent) - strlen(entryLine));
-    if (*srcPosPtr == '\n') {
+    srcPosPtr  = entryPtr + strlen(libsnoopySoPath);
+    while ((*srcPosPtr == ' ') || (*srcPosPtr == '\t')) {
         srcPosPtr++;
-        copyLength--;
+    }
+    if ((*srcPosPtr != '\0') && (*srcPosPtr != '\n') && (*srcPosPtr != '#')) {
+        // Other entries share the line with ours - only remove our entry, keep the rest of the line
+        copyLength = (unsigned int) strlen(srcPosPtr);
+    } else {
+        srcPosPtr  = entryPtr + strlen(entryLine);
+        copyLength = (unsigned int) (strlen(curEtcLdSoPreloadContent) - (entryPtr - curEtcLdSoPreloadContent) - strlen(entryLine));
+        if (*srcPosPtr == '\n') {
+            srcPosPtr++;
+            copyLength--;
+        }
     }
     strncpy(destPosPtr, srcPosPtr, copyLength);
 
